@@ -19,6 +19,8 @@ def run(rep, kf, tier, seed):
                                  cproj.build_contract("POETRY")] + cpl.all_contracts(), "C16", tier, seed)
     rep.obligations = [o for o in rep.obligations if "C16" in o.props or o.id.endswith("no-exception-escapes")]
     overrides_package(rep, kf, tier, seed)
+    from props.common import run_bounded
+    run_bounded(rep, kf, "C16", ["tag_filing"], tier)
     cd.discharge(rep, kf, "C16", tier, seed)
     import contracts.closure as cl
     cl.import_closure_obligations(rep, "C16")
